@@ -433,3 +433,115 @@ fn enc_finish_slice() {
     core::mem::forget(r);
 }
 
+
+
+// ------------------------------------------------------------------------------------------------
+// S1 / W2: EncodeBody::poll_frame, one step: exactly one trailers block on a server, nothing after it, none on a client.
+// Status::to_header_map is replaced by a recorder returning an empty map (the header encoding itself is C04's subject).
+// ------------------------------------------------------------------------------------------------
+static mut TRAILER_CODES: [i32; 2] = [-1; 2];
+static mut TRAILERS_BUILT: usize = 0;
+
+fn to_header_map_stub(this: &Status) -> Result<HeaderMap, Status> {
+    unsafe {
+        if TRAILERS_BUILT < 2 {
+            TRAILER_CODES[TRAILERS_BUILT] = this.code() as i32;
+        }
+        TRAILERS_BUILT += 1;
+    }
+    Ok(HeaderMap::new())
+}
+
+fn body_step<const P: usize>() {
+    let pre: [u8; P] = kani::any();
+    let e = any_ev::<1, 3>(); // Pending / End / Item (1 byte, encoder may fail) / source error
+    let server: bool = kani::any();
+    let ended: bool = kani::any();
+    kani::assume(!ended || server); // only a server body ever sets is_end_stream
+    unsafe {
+        TRAILER_CODES = [-1; 2];
+        TRAILERS_BUILT = 0;
+    }
+    let mut buf = BytesMut::new();
+    buf.put_slice(&pre);
+    let mut body = EncodeBody {
+        inner: EncodedBytes {
+            source: Script::<1> { ev: [e], pos: 0, polls: 0 }.fuse(),
+            encoder: CopyEnc { settings: BufferSettings::new(8, 1 << 20) },
+            compression_encoding: None,
+            max_message_size: None,
+            buf,
+            uncompression_buf: BytesMut::new(),
+            error: None,
+        },
+        state: EncodeState { error: None, role: if server { Role::Server } else { Role::Client }, is_end_stream: ended },
+    };
+    let mut cx = noop_cx();
+    let r = unsafe { Pin::new_unchecked(&mut body) }.poll_frame(&mut cx);
+    let built = unsafe { TRAILERS_BUILT };
+    if ended {
+        kani::cover!(true, "after the trailers");
+        assert!(matches!(r, Poll::Ready(None)), "C03: something follows the trailers block");
+        assert!(built == 0, "C03: a second grpc-status was produced");
+        assert!(body.inner.buf.len() == P, "C03: the source was polled / encoded again after the trailers");
+    } else {
+        match &r {
+            Poll::Ready(Some(Ok(f))) if f.is_data() => {
+                kani::cover!(true, "data frame");
+                assert!(built == 0);
+                assert!(!body.state.is_end_stream);
+                let d = f.data_ref().unwrap();
+                assert!(d.len() >= P && d.len() > 0, "C01: buffered frames were not delivered first");
+            }
+            Poll::Ready(Some(Ok(_))) => {
+                kani::cover!(true, "trailers frame");
+                assert!(server, "C03: a client request body produced trailers");
+                assert!(built == 1, "C03: not exactly one grpc-status");
+                assert!(body.state.is_end_stream, "C03: the body does not report its end after the trailers");
+                assert!(P == 0, "C02: status sent ahead of buffered message frames");
+                match e {
+                    Ev::End => assert!(unsafe { TRAILER_CODES[0] } == 0, "C02: handler finished OK but the status is not OK"),
+                    Ev::Fail(t) => assert!(unsafe { TRAILER_CODES[0] } == code_of(t) as i32, "C02: the handler's status code was changed"),
+                    Ev::Item(m) => assert!(m.enc_fail && unsafe { TRAILER_CODES[0] } == Code::Internal as i32),
+                    Ev::Pending => assert!(false),
+                }
+            }
+            Poll::Ready(Some(Err(s))) => {
+                kani::cover!(true, "body error");
+                assert!(!server, "C02: a server turns errors into trailers, not into a body error");
+                assert!(built == 0 && P == 0);
+                match e {
+                    Ev::Fail(t) => assert!(s.code() == code_of(t)),
+                    Ev::Item(m) => assert!(m.enc_fail),
+                    _ => assert!(false),
+                }
+            }
+            Poll::Ready(None) => {
+                kani::cover!(true, "client end");
+                assert!(!server, "C03: a server body ended without a grpc-status");
+                assert!(matches!(e, Ev::End) && P == 0 && built == 0);
+            }
+            Poll::Pending => {
+                kani::cover!(true, "pending");
+                assert!(matches!(e, Ev::Pending) && P == 0);
+            }
+        }
+    }
+    core::mem::forget(r);
+    core::mem::forget(body);
+}
+
+#[kani::proof]
+#[kani::unwind(8)]
+#[kani::stub(alloc::fmt::format, fmt_stub)]
+#[kani::stub(Status::to_header_map, to_header_map_stub)]
+fn enc_body_step_p0() {
+    body_step::<0>()
+}
+#[kani::proof]
+#[kani::unwind(8)]
+#[kani::stub(alloc::fmt::format, fmt_stub)]
+#[kani::stub(Status::to_header_map, to_header_map_stub)]
+fn enc_body_step_p4() {
+    body_step::<4>()
+}
